@@ -6,8 +6,8 @@
     `as u8` / `as u16` casts of src/stdlib/std.rs do), and from it the premise is shown to be necessary as well as
     sufficient: an independent parser recovers the supplied content from the produced bytes exactly when the
     content fits.  [C15b_len_nested] is the nesting argument of Props/C15.v spelled out once, layer by layer. *)
-From RS Require Import Base.Bytes Base.Outcome Interp.Val Lib.LibBase Lib.StdLib
-  Spec.LenPrefix Proofs.C15.StdHelpers Proofs.C15.Wrap.
+From RS Require Import Base.Bytes Base.Outcome Interp.Val Lib.LibBase Lib.ProtoLib Lib.StdLib
+  Spec.LenPrefix Spec.TlsParse Proofs.C15.StdHelpers Proofs.C15.Wrap.
 Open Scope N_scope.
 
 Theorem C15b_len_u8_exact : forall e parts h,
@@ -54,6 +54,14 @@ Theorem C15b_int_iff : forall e v rest h,
   /\ (forall out, call e "std::be32" [VU64 v] [] h = Some (Ok (VStr out, h)) ->
                   (parse_be32 (out ++ rest) = Some (v, rest) <-> v < 4294967296)).
 Proof. exact int_iff. Qed.
+
+(** a TLS record: the independent record parser returns the supplied content type, version and fragment exactly
+    when the fragment fits the 16-bit length *)
+Theorem C15b_tls_record_iff : forall e version content v c parts rest h out,
+  conv_u16 version = Ok v -> conv_u8 content = Ok c ->
+  call e "tls::message" [version; content] (map VStr parts) h = Some (Ok (VStr out, h)) ->
+  (parse_tls_record (out ++ rest) = Some ((c, v, concat parts), rest) <-> len (concat parts) < 65536).
+Proof. exact tls_record_iff. Qed.
 
 (** the hypotheses are met, on both sides of the boundary: 255 bytes parse back, 256 bytes declare 0 *)
 Example C15b_nonvacuous :
